@@ -1273,6 +1273,165 @@ def chain_rewrite_family(ctx, rounds):
                                      "maxseg": ctx.rng.choice([16, 24, 50]), "size": ctx.rng.choice([33, 90, 200]), "trials": trials})
 
 
+# ----------------------------------------------------------------------------- tampering between two reads through one version object
+
+def second_read_scenario(ctx, prm):
+    """mv = get_best_readable_version() on a read-only node; one read through mv; then servers alter
+    their shares (a header field -- for SDMF the IV is part of the signed header --, block data, a hash
+    chain, ...); then a full and a ranged read through the SAME mv, and a fresh read.  Every read returns
+    bytes of a published version (the right range of them) or fails."""
+    import grid
+    from allmydata.mutable import publish
+    from allmydata.mutable.publish import MutableData
+    from allmydata.interfaces import SDMF_VERSION, MDMF_VERSION
+    from allmydata.util.consumer import MemoryConsumer
+    fmt = SDMF_VERSION if prm["fmt"] == "SDMF" else MDMF_VERSION
+    k, n = prm["k"], prm["n"]
+    from allmydata.mutable.retrieve import Retrieve
+    saved_seg = publish.DEFAULT_MUTABLE_MAX_SEGMENT_SIZE
+    publish.DEFAULT_MUTABLE_MAX_SEGMENT_SIZE = prm["maxseg"]
+    seen_decodes, ds_lines, ds_impls, ds_cases = [], [], [], []
+    orig_decode = Retrieve._decode_blocks
+
+    def decode_blocks(self, results, segnum):
+        merged = {}
+        for d_ in results:
+            merged.update(d_)
+        cached = list(self.servermap.proxies.values())
+        seen_decodes.append((self.verinfo[2], [(r_.shnum, any(r_ is c_ for c_ in cached)) for r_ in self._active_readers],
+                             list(merged.items())[0][1][1]))
+        return orig_decode(self, results, segnum)
+    Retrieve._decode_blocks = decode_blocks
+    try:
+        with grid.Runtime(seed=prm["seed"], policy=prm["policy"]) as rt:
+            g = grid.Grid(grid.fresh_dir("c10e"), rt, num_servers=n, k=k, happy=1, n=n)
+            try:
+                c = g.clients[0]
+                size = prm["size"]
+                v1 = (b"version one, published by the write-cap holder. " * (size // 40 + 1))[:size]
+                v2 = (b"version TWO, published by the write-cap holder. " * (size // 40 + 1))[:size]
+                node = rt.wait(c.create_mutable_file(MutableData(v1), version=fmt))
+                rt.wait(node.overwrite(MutableData(v2)))
+                readcap = node.get_readonly_uri()
+                files = {sh: p for (_i, sh, p) in g.share_files(node.get_storage_index())}
+                pristine = {sh: open(p, "rb").read() for sh, p in files.items()}
+                for ti, tr in enumerate(prm["trials"]):
+                    for sh, p in files.items():
+                        with open(p, "wb") as fh:
+                            fh.write(pristine[sh])
+                    mv = rt.wait(fresh_node(c, readcap).get_best_readable_version())
+                    outcomes = []
+                    del seen_decodes[:]
+
+                    def one(label, thunk, lo, hi):
+                        try:
+                            got = rt.wait(thunk())
+                        except grid.Stuck:
+                            outcomes.append((label, "stuck", None))
+                            return
+                        except Exception as e:
+                            outcomes.append((label, "err", type(e).__name__))
+                            return
+                        if isinstance(got, MemoryConsumer):
+                            got = b"".join(got.chunks)
+                        outcomes.append((label, "ok" if got in (v1[lo:hi], v2[lo:hi]) else "unpublished", got))
+                    one("first", mv.download_to_data, 0, None)
+                    for sh in tr["shares"]:
+                        if sh not in files:
+                            continue
+                        raw = pristine[sh]
+                        fl = share_fields(raw[DATA_OFFSET:])
+                        if tr["field"] not in fl or fl[tr["field"]][1] <= fl[tr["field"]][0]:
+                            continue
+                        (a, b) = fl[tr["field"]]
+                        a, b = a + DATA_OFFSET, b + DATA_OFFSET
+                        if tr["how"] == "xor":
+                            raw = raw[:a] + bytes(x ^ 0x5a for x in raw[a:b]) + raw[b:]
+                        else:
+                            pos = a + tr["pos"] % (b - a)
+                            raw = raw[:pos] + bytes([raw[pos] ^ (1 << (tr["pos"] % 8))]) + raw[pos + 1:]
+                        with open(files[sh], "wb") as fh:
+                            fh.write(raw)
+                    lo = tr["offset"] % size
+                    hi = min(size, lo + 1 + tr["length"] % size)
+                    one("second-full", mv.download_to_data, 0, None)
+                    ndec = len(seen_decodes)
+                    one("second-ranged", lambda: mv.read(MemoryConsumer(), lo, hi - lo), lo, hi)
+                    if prm["fmt"] == "SDMF":
+                        # the salt each SDMF segment was decrypted with, against the model: readers in activation order,
+                        # cached or fresh, signed IV = 1, whatever else the share file holds now = 2
+                        for (signed_iv, readers, used) in seen_decodes[1:ndec]:
+                            toks = []
+                            for (shnum, cached) in readers:
+                                now = open(files[shnum], "rb").read()[DATA_OFFSET + 41:DATA_OFFSET + 57]
+                                toks.append("%s:1:%d" % ("c" if cached else "f", 1 if now == signed_iv else 2))
+                                if not cached:
+                                    ctx.disagree("a Retrieve for a version the map update verified made a fresh slot reader (the model's "
+                                                 "readers are the cached ones)", {"fmt": "SDMF", "shnum": shnum, "trial": tr}, "fresh", "cached")
+                            ds_lines.append("ds " + " ".join(toks))
+                            ds_impls.append("1" if used == signed_iv else "2")
+                            ds_cases.append({"params": dict(prm, trials=prm["trials"][:ti + 1]), "readers": toks})
+                    one("fresh", fresh_node(c, readcap).download_best_version, 0, None)
+                    case = {"family": "second-read", "params": dict(prm, trials=prm["trials"][:ti + 1]), "fmt": prm["fmt"], "k": k, "n": n,
+                            "tampered_shares": tr["shares"], "field": tr["field"], "how": tr["how"], "range": [lo, hi],
+                            "outcomes": [(lb, st, (v if st == "err" else None)) for (lb, st, v) in outcomes]}
+                    intact = n - len([sh for sh in tr["shares"] if sh in files])
+                    for (lb, st, v) in outcomes:
+                        if st == "unpublished":
+                            ctx.violation("a read returned bytes that no write-cap holder published (%s read, shares altered after the first "
+                                          "read through the same version object)" % lb, dict(case, read=lb, got=v.hex()[:80]),
+                                          "forged-content-accepted:second-read-same-version-object" if lb.startswith("second")
+                                          else "forged-content-accepted:" + lb + "-read")
+                        elif st == "stuck":
+                            ctx.violation("read never completed", dict(case, read=lb), "read-stuck:second-read")
+                        elif st == "err" and lb == "first":
+                            ctx.violation("untampered file not readable", dict(case, read=lb), "pristine-unreadable")
+                        elif st == "err" and intact >= k and tr["field"] != "offsets":
+                            ctx.violation("k intact shares of the newest version were reachable but the %s read failed" % lb,
+                                          dict(case, read=lb), "newest-not-returned:second-read")
+                    ctx.case(repr((prm["fmt"], k, n, prm["seed"], prm["policy"], ti, tuple(tr["shares"]), tr["field"], tr["how"])))
+                    ctx.count("second-read:%s:%s:%s" % (prm["fmt"], tr["field"], "/".join(st for (_l, st, _v) in outcomes[1:3])))
+            finally:
+                g.close()
+    finally:
+        publish.DEFAULT_MUTABLE_MAX_SEGMENT_SIZE = saved_seg
+        Retrieve._decode_blocks = orig_decode
+    ctx.compare("salt handed to the decryptor (SDMF: the IV of the signed prefix)", ds_cases, ds_impls, ctx.model(ds_lines))
+
+
+SECOND_READ_FIELDS = ["salt", "salt", "seqnum", "root_hash", "kN", "segsize", "datalen", "pubkey", "signature", "share_hash_chain",
+                      "block_hash_tree", "share_data", "share_data", "enc_privkey"]
+
+
+def second_read_corpus(ctx):
+    tr = lambda shares, field, how="xor": {"shares": shares, "field": field, "how": how, "pos": 3, "offset": 7, "length": 39}   # noqa: E731
+    second_read_scenario(ctx, {"fmt": "SDMF", "k": 2, "n": 4, "seed": 41, "policy": "fifo", "maxseg": 16, "size": 100,
+                               "trials": [tr([0], "salt"), tr([0], "salt", "bit"), tr([0, 1], "salt"), tr([0], "share_data"),
+                                          tr([0], "share_hash_chain"), tr([1], "seqnum", "bit"), tr([0], "datalen", "bit")]})
+    second_read_scenario(ctx, {"fmt": "SDMF", "k": 3, "n": 5, "seed": 42, "policy": "lifo", "maxseg": 16, "size": 700,
+                               "trials": [tr([0], "salt"), tr([0], "root_hash", "bit"), tr([0], "segsize", "bit")]})
+    second_read_scenario(ctx, {"fmt": "MDMF", "k": 2, "n": 4, "seed": 43, "policy": "fifo", "maxseg": 16, "size": 100,
+                               "trials": [tr([0], "share_data"), tr([0], "root_hash", "bit"), tr([0], "datalen", "bit"), tr([0, 1], "block_hash_tree")]})
+
+
+def second_read_family(ctx, rounds):
+    combos = [(f, p) for p in ("random", "fifo", "lifo") for f in ("SDMF", "SDMF", "MDMF")]
+    for r in range(rounds):
+        fmt, policy = combos[r % len(combos)]
+        k, n = ctx.rng.choice([(2, 4), (3, 5), (1, 2), (2, 3), (3, 10)])
+        trials = []
+        for _ in range(5):
+            cnt = ctx.rng.choice([1, 1, 1, 2, k])
+            shares = [0] if ctx.rng.random() < 0.5 and cnt == 1 else sorted(ctx.rng.sample(range(n), min(cnt, n)))
+            field = ctx.rng.choice(SECOND_READ_FIELDS)
+            if field == "salt" and fmt != "SDMF":
+                field = "share_data"
+            trials.append({"shares": shares, "field": field, "how": ctx.rng.choice(["xor", "bit"]), "pos": ctx.rng.randrange(1 << 16),
+                           "offset": ctx.rng.randrange(1 << 16), "length": ctx.rng.randrange(1 << 16)})
+        second_read_scenario(ctx, {"fmt": fmt, "k": k, "n": n, "seed": ctx.rng.randrange(1 << 30), "policy": policy,
+                                   "maxseg": ctx.rng.choice([16, 24, 50]), "size": ctx.rng.choice([33, 100, 700]), "trials": trials})
+
+
 def fixed_minimal_corpus(ctx):
     """One minimal, fully fixed instance of each random family that is the only catcher of some past
     change (nothing here draws from ctx.rng): the VERIF_CORPUS_ONLY run ends after this."""
@@ -1306,6 +1465,9 @@ def run(ctx):
     if rc.get("family") == "consistent-forgery":
         forgery_scenario(ctx, rc["params"])
         return
+    if rc.get("family") == "second-read":
+        second_read_scenario(ctx, rc["params"])
+        return
     if rc.get("family") == "chain-rewritten":
         chain_rewrite_scenario(ctx, rc["params"])
         return
@@ -1318,6 +1480,7 @@ def run(ctx):
     offset_table_corpus(ctx)
     two_verinfos_corpus(ctx)
     chain_rewrite_corpus(ctx)
+    second_read_corpus(ctx)
     fixed_minimal_corpus(ctx)
     if os.environ.get("VERIF_CORPUS_ONLY"):
         return
@@ -1328,6 +1491,7 @@ def run(ctx):
     prefix_alteration_family(ctx, ctx.budget(6, 120))
     shared_server_family(ctx, ctx.budget(6, 120), corpus=False)
     chain_rewrite_family(ctx, ctx.budget(8, 160))
+    second_read_family(ctx, ctx.budget(6, 120))
     single_share_cases(ctx, ctx.budget(3, 60))
     damaged_share_among_few_servers(ctx, ctx.budget(14, 200))
     campaign(ctx, ctx.budget(8, 300))
